@@ -26,6 +26,10 @@ var freshPieces = [][]byte{
 	[]byte("user\x00u\x00"), []byte("user\x00"), []byte("\x00"), []byte("database\x00db\x00\x00"),
 	{0x16, 0x03, 0x01, 0x00, 0x2e, 0x01, 0x00, 0x00, 0x2a, 0x03, 0x03},
 	pgwire.SSLRequest(), pgwire.Startup([][2]string{{"user", "u"}}), pgwire.Query("select healthy"), pgwire.CancelRequest(1, 1),
+	// request packets cut short or padded: a CancelRequest without / with half of its process id and key,
+	// an SSLRequest / GSSENCRequest carrying a body, a start-up packet that is only its version word
+	pgwire.Untyped(pgwire.CodeCancel, nil), pgwire.Untyped(pgwire.CodeCancel, []byte{0, 1}), pgwire.Untyped(pgwire.CodeCancel, []byte{0, 0, 0, 1}), pgwire.Untyped(pgwire.CodeCancel, []byte{0, 0, 0, 1, 0, 0, 7}),
+	pgwire.Untyped(pgwire.CodeCancel, make([]byte, 12)), pgwire.Untyped(pgwire.CodeSSL, []byte{1, 2, 3}), pgwire.Untyped(pgwire.CodeGSS, []byte{9}), pgwire.Untyped(pgwire.Version30, nil),
 }
 
 func genFresh(t *rapid.T) Case {
